@@ -32,16 +32,16 @@ func c07Scenarios() []*Scenario {
 					sc.Name = fmt.Sprintf("forbidden/%s position=%d initial=%v checkpoints=%v", eng, p, initial, cpOn)
 					out = append(out, sc)
 				}
-				// (b) header contradicting a checkpoint (default engine: configurable lists; the
-				// experimental engine reads its checkpoints from the network parameters - see exec)
-				if eng == "legacy" {
+				// (b) header contradicting a checkpoint (the experimental engine reads its list from the
+				// network parameters the harness hands it - see exec)
+				{
 					lists := [][]int{{p}, {p, 5}}
 					if p > 1 {
 						lists = append(lists, []int{1, p})
 					}
 					for _, cps := range lists {
 						sc := &Scenario{Engine: eng, Blocks: bs, Initial: initial, Checkpoints: cps, BadBlock: 6, BadNode: 1}
-						sc.Nodes = []NodeSpec{{Chain: seq(1, 5), Reliable: true}, {Chain: mChain}}
+						sc.Nodes = []NodeSpec{{Chain: seq(1, 5), Reliable: true, Initiator: eng == "experimental"}, {Chain: mChain}}
 						sc.Name = fmt.Sprintf("checkpoint/%s position=%d list=%v initial=%v", eng, p, cps, initial)
 						out = append(out, sc)
 					}
